@@ -208,7 +208,7 @@ func checkC16(c c16Case, rec *Rec) *Violation {
 	}
 	if c.Kind == "engine" {
 		// through the engine: the document request itself is excepted
-		text := c16RuleText(c) + "\n##.generic\nexample.org##.specific\nexample.*##.wild\n~shop.example.net,~a.com##.genericneg\n##.dup\nexample.org##.dup\n"
+		text := c16RuleText(c) + "\n##.generic\nexample.org##.specific\nexample.*##.wild\n~shop.example.net,~a.com##.genericneg\n##.dup\nexample.org##.dup\nexample.org##.promo\nsub.example.org#@#.promo\n"
 		st, err := filterlist.NewRuleStorage([]filterlist.RuleList{&filterlist.StringRuleList{ID: 1, RulesText: text}})
 		if err != nil {
 			return viol(id, "C16:harness", "storage: %v", err)
@@ -242,6 +242,13 @@ func checkC16(c c16Case, rec *Rec) *Violation {
 		if r := e.GetCosmeticResult("example.org", got).ElementHiding; (inList(".dup", r.Generic) || inList(".dup", r.Specific)) != wantS {
 			return viol(id, "C16:engine-selectors", "rule %q: option %03b: selector carried by a generic and a specific rule present=%v, want %v (generic=%q specific=%q)",
 				c16RuleText(c), got, !wantS, wantS, r.Generic, r.Specific)
+		}
+		// a specific rule that an exception rule unhides on a sub-domain: never there, whatever the option; on the domain itself with CSS
+		if r := e.GetCosmeticResult("sub.example.org", got).ElementHiding; inList(".promo", r.Generic) || inList(".promo", r.Specific) {
+			return viol(id, "C16:engine-selectors", "rule %q: option %03b: selector unhidden on sub.example.org by an exception rule is applied there (generic=%q specific=%q)", c16RuleText(c), got, r.Generic, r.Specific)
+		}
+		if r := e.GetCosmeticResult("example.org", got).ElementHiding; inList(".promo", r.Specific) != wantS {
+			return viol(id, "C16:engine-selectors", "rule %q: option %03b: specific selector .promo on example.org present=%v, want %v", c16RuleText(c), got, !wantS, wantS)
 		}
 		// a rule that only excludes domains is generic as well
 		for _, h := range []string{"example.org", "sub.example.org", "other.example"} {
